@@ -18,6 +18,8 @@ def run(chk):
     chk.rule('R9.4', "allocating variants allocate exactly that shape (resp. data dims minus K), pass the full view to the sink / the _into variant, and return that array on Ok")
     chk.rule('R9.5', "interp_scalar: 1-element buffer -> 0-d view -> sink -> element 0 of the same buffer")
     chk.rule('R9.6', "result types: Array<_, Dq ++ (D minus K)> for every data/query dimension pair, dynamic when the sum exceeds 6 (compile-time witnesses)")
+    chk.rule('R9.8', "the built-in strategies fill the target lane by lane inside one Zip with the lane views of the data (pairing by logical index, "
+                     "independent of the memory layout of a caller-supplied buffer): what a *_into variant writes is what the allocating variant returns")
     chk.rule('R9.7', "fast path and general path are two instances of R9.1/R9.2 on the same sink; the cast between them is an identity (C19)")
     chk.assumptions += ["value equality of the entry points follows from single sink + pairing given a deterministic strategy (C17)",
                         "indexed_iter yields every index of the query array exactly once; axis_iter_mut(Axis(0)) yields the sub-views in index order"]
@@ -73,6 +75,8 @@ def run(chk):
         if r.name == 'interp_array_into' and r.scn['sink'] == 'ok' and r.scn.get('shape_ok', True):
             chk.ob('R9.4', "%s: writes go to the caller's buffer (root %s) and Ok(()) is returned" % (key, t.d['rootkind']),
                    t.d['rootkind'] == 'caller' and is_ok(r.value), where, key + '-into')
+    from .c14 import strategy_target_alignment
+    strategy_target_alignment(chk, lib, 'R9.8')
     # R9.7: both paths of interp_array reach the same sink with the same pairing
     for lead in (1, 2):
         a = [r for r in runs if r.lead == lead and r.name == 'interp_array' and r.scn['sink'] == 'ok' and r.scn.get('qshape_ok', True)]
